@@ -61,6 +61,8 @@ type Term struct {
 	k    uint64
 	name string
 	nl   bool // contains symbolic*symbolic mul/div/rem
+	at   []int32
+	atOK bool
 }
 
 type tkey struct {
@@ -602,6 +604,13 @@ func Bin(op Op, a, b *Term) *Term {
 			return a
 		}
 	}
+	switch op {
+	case OAdd, OMul, OBAnd, OBOr, OBXor:
+		// canonical operand order for commutative operators (constants last)
+		if !a.IsConst() && !b.IsConst() && a.id > b.id {
+			a, b = b, a
+		}
+	}
 	return TS.mk(op, w, 0, "", a, b)
 }
 
@@ -954,4 +963,136 @@ func (m *Model) Eval(t *Term, memo map[int]uint64) uint64 {
 	}
 	memo[t.id] = v
 	return v
+}
+
+
+// ---- atoms (variables / base arrays / UF symbols) for constraint independence ----
+
+var atomIDs = map[string]int32{}
+
+func atomID(name string) int32 {
+	if id, ok := atomIDs[name]; ok {
+		return id
+	}
+	id := int32(len(atomIDs))
+	atomIDs[name] = id
+	return id
+}
+
+func mergeAtoms(a, b []int32) []int32 {
+	if len(a) == 0 {
+		return b
+	}
+	if len(b) == 0 {
+		return a
+	}
+	out := make([]int32, 0, len(a)+len(b))
+	i, j := 0, 0
+	for i < len(a) && j < len(b) {
+		switch {
+		case a[i] < b[j]:
+			out = append(out, a[i])
+			i++
+		case a[i] > b[j]:
+			out = append(out, b[j])
+			j++
+		default:
+			out = append(out, a[i])
+			i++
+			j++
+		}
+	}
+	out = append(out, a[i:]...)
+	out = append(out, b[j:]...)
+	return out
+}
+
+func (t *Term) atoms() []int32 {
+	if t.atOK {
+		return t.at
+	}
+	// iterative post-order
+	type fr struct {
+		t *Term
+		i int
+	}
+	st := []fr{{t, 0}}
+	for len(st) > 0 {
+		f := &st[len(st)-1]
+		if f.i < len(f.t.a) {
+			c := f.t.a[f.i]
+			f.i++
+			if !c.atOK {
+				st = append(st, fr{c, 0})
+			}
+			continue
+		}
+		x := f.t
+		st = st[:len(st)-1]
+		if x.atOK {
+			continue
+		}
+		var at []int32
+		switch x.op {
+		case OVar:
+			at = []int32{atomID(x.name)}
+		case OSelect, OUF:
+			at = []int32{atomID(x.name)}
+		}
+		for _, c := range x.a {
+			at = mergeAtoms(at, c.at)
+		}
+		x.at = at
+		x.atOK = true
+	}
+	return t.at
+}
+
+// sliceFor returns the subset of pc that is (transitively) connected to the query terms through
+// shared atoms. Dropping the rest preserves satisfiability as long as pc itself is satisfiable.
+func sliceFor(pc []*Term, extra []*Term) []*Term {
+	if len(pc) == 0 {
+		return nil
+	}
+	have := map[int32]bool{}
+	for _, e := range extra {
+		for _, a := range e.atoms() {
+			have[a] = true
+		}
+	}
+	in := make([]bool, len(pc))
+	changed := true
+	for changed {
+		changed = false
+		for i, t := range pc {
+			if in[i] {
+				continue
+			}
+			hit := false
+			at := t.atoms()
+			for _, a := range at {
+				if have[a] {
+					hit = true
+					break
+				}
+			}
+			if len(at) == 0 {
+				hit = true // constant-only constraint (should not happen): keep
+			}
+			if hit {
+				in[i] = true
+				changed = true
+				for _, a := range at {
+					have[a] = true
+				}
+			}
+		}
+	}
+	var out []*Term
+	for i, t := range pc {
+		if in[i] {
+			out = append(out, t)
+		}
+	}
+	return out
 }
